@@ -184,6 +184,14 @@ class C17(Check):
                     cnt["detector_calls_driven_by_the_harness"] = cnt.get("detector_calls_driven_by_the_harness", 0) + 1
                     cnt["longest_history"] = max(cnt.get("longest_history", 0), len(ref.hist))
                 cnt[f"calls_{r['cls']}"] = cnt.get(f"calls_{r['cls']}", 0) + 1
+                if tid > 0:
+                    # the detector built from the configuration is the configured one
+                    conf = case["config"]["estimation"]["sequential_filter"]["maneuver_detection"]
+                    want = ({"standard_nis": "StandardNis", "sliding_nis": "SlidingNis", "fading_memory_nis": "FadingMemoryNis"}[conf["name"]], conf["threshold"], conf.get("window_size"), conf.get("delta"))
+                    got = (r["cls"], r["threshold"], r["window"] if conf.get("window_size") is not None else None, r["delta"] if conf.get("delta") is not None else None)
+                    if got != want:
+                        viol.append({"clause": "detector-differs-from-its-configuration", "key": conf["name"], "detail": f"configured {conf}, the filter of target {tid} runs {got}"})
+                        break
                 where = f"step {k} target {tid} {r['cls']}(threshold={r['threshold']}, window={r['window']}, delta={r['delta']}) history (NIS, dim)={[(round(n, 4), d) for n, d in ref.hist[-6:]]}"
                 # the quadratic form inverts S: allow the rounding its conditioning amplifies
                 rtol = max(1e-9, 100 * 2.3e-16 * float(np.linalg.cond(r["innov_cvr"]))) * max(1, len(ref.hist) if r["cls"] != "StandardNis" else 1)
